@@ -153,6 +153,27 @@ func checkRoundTripFacts(c RTCase) (v *Violation, f rtFacts) {
 			var q path.Path
 			return &q, q.Scan([]byte(str))
 		}},
+		// the same into a Path that already held (and printed) another path: reading back replaces it entirely
+		{"UnmarshalText into a used Path", func() (*path.Path, error) {
+			b, err := p.MarshalText()
+			if err != nil {
+				return nil, err
+			}
+			q := path.MustParse(`strict $."zz" ? (@ like_regex "^old$")`)
+			_, _, _ = q.String(), q.IsPredicate(), q.PgIndexOperator()
+			_, _ = q.MarshalText()
+			return q, q.UnmarshalText(b)
+		}},
+		{"Scan into a used Path", func() (*path.Path, error) {
+			val, err := p.Value()
+			if err != nil {
+				return nil, err
+			}
+			q := path.MustParse(`$.zz == 1`)
+			_ = q.String()
+			_, _ = q.Value()
+			return q, q.Scan(val)
+		}},
 	} {
 		q, err := r.f()
 		if err != nil {
@@ -163,6 +184,9 @@ func checkRoundTripFacts(c RTCase) (v *Violation, f rtFacts) {
 		}
 		if d := Diff(want, PathFromAST(q.AST).Root); d != "" || q.IsLax() != p.IsLax() || q.IsPredicate() != p.IsPredicate() {
 			return violf("%s of %q yields a different path (%q): %s", r.name, c.Text, q.String(), d), f
+		}
+		if q.String() != p2.String() || q.PgIndexOperator() != p.PgIndexOperator() {
+			return violf("%s of %q: the path read back prints as %q (operator %s), want %q (%s)", r.name, c.Text, q.String(), q.PgIndexOperator(), p2.String(), p.PgIndexOperator()), f
 		}
 	}
 	// same results on every document (skipped only inside finding D8's class,
